@@ -26,6 +26,7 @@ def main():
     if args and args[0] == "--harmless":
         DIR, WT, args = "harmless", "/tmp/wt_harmless", args[1:]
     ids = args or sorted(os.listdir(os.path.join(VERIF, DIR)))
+    WT = os.environ.get("SEEDED_WT", WT)      # several instances may run side by side, each with its own scratch worktree
     sh("git -C /repo worktree remove --force %s" % WT)
     r = sh("git -C /repo worktree add --detach %s HEAD" % WT)
     assert r.returncode == 0, r.stdout
